@@ -1,10 +1,22 @@
 import PyxModel.Sexp
+import PyxModel.Interp.Decode
 
-/-! driver commands of property C04 (stub: no command yet) -/
+/-! driver commands of property C04:
+    `(interp <fuel> <ctx> <state> <BodyNode tree> <kwargs>)` → `(ok <return value> <state>)`,
+    `(error "why the program is outside the domain")` or `(timeout)` -/
 namespace Pyx.Driver.C04
-open Pyx Pyx.Sexp
+open Pyx Pyx.Sexp Pyx.Interp
 
 def handle : List Sexp → Option Sexp
+  | [sym "interp", int fuel, ctx, state, prog, kwargs] =>
+    match decodeCtx ctx with
+    | none => some (list [sym "bad", str "ctx"])
+    | some C =>
+      match decodeState C state, decodeBody prog, decodeKwargs kwargs with
+      | some st, some body, some kw => some (encodeResult C (runFunction C fuel.toNat body kw st))
+      | none, _, _ => some (list [sym "bad", str "state"])
+      | _, none, _ => some (list [sym "bad", str "program"])
+      | _, _, none => some (list [sym "bad", str "kwargs"])
   | _ => none
 
 end Pyx.Driver.C04
